@@ -14,6 +14,22 @@ Theorem c14_equiv : forall (V : Type) (ops : list (op V)) (f : rawfile V) (sp : 
 Proof. exact hand_edit_commutes. Qed.
 Print Assumptions c14_equiv.
 
+(* the potable command line (all --override-item, then all --remove-item, then all --add-item options, each group in the
+   order given) is that sequence of operations: same store as the file edited by hand in that order, or a configuration
+   error exactly when one of the edits cannot be made; in particular repeating --remove-item for one item is refused
+   (before fix 3dcaed8 the options were collated by their typed label and the repetition went unnoticed) *)
+Theorem c14_cli_equiv : forall (V : Type) (ov rm ad : list (op V)) (f : rawfile V) (sp : nat),
+  match hand_edit f sp (ov ++ rm ++ ad) with
+  | Some f' => apply_ops (forget f) (cli_ops ov rm ad) = Ok (forget f')
+  | None => apply_ops (forget f) (cli_ops ov rm ad) = CfgErr
+  end.
+Proof. intros V ov rm ad f sp. exact (hand_edit_commutes V (ov ++ rm ++ ad) f sp). Qed.
+Theorem c14_cli_remove_twice : forall (V : Type) (st : store V) (ov rm1 rm2 rm3 ad : list (op V)) s k, wf_store V st = true ->
+  forallb (fun o => negb (is_add V o)) rm2 = true ->
+  forall st', apply_ops st (cli_ops ov (rm1 ++ Remove s k :: rm2 ++ Remove s k :: rm3) ad) <> Ok st'.
+Proof. exact cli_remove_twice. Qed.
+Print Assumptions c14_cli_remove_twice.
+
 (* the edited store is again duplicate free (the hand-edited file parses) *)
 Theorem c14_edited_parses : forall (V : Type) (ops : list (op V)) (st st' : store V),
   wf_store V st = true -> apply_ops st ops = Ok st' -> wf_store V st' = true.
@@ -48,5 +64,8 @@ Example c14_example :
   wf_store nat (forget f) = true /\
   apply_ops (forget f) [Override SPair (KPair 0 1) 20; Remove STabulation (KOpt 5); Add (SOther 3) (KOpt 6) 21]
   = Ok [(SPair, [(KPair 0 1, 20); (KPair 1 1, 11)]); (SOther 3, [(KOpt 6, 21)])] /\
-  apply_ops (forget f) [Add SPair (KPair 0 1) 20] = CfgErr.
+  apply_ops (forget f) [Add SPair (KPair 0 1) 20] = CfgErr /\
+  apply_ops (forget f) (cli_ops [Override STabulation (KOpt 5) 13; Override STabulation (KOpt 5) 14] [Remove SPair (KPair 1 1)] []) 
+  = Ok [(SPair, [(KPair 0 1, 10)]); (STabulation, [(KOpt 5, 14)])] /\
+  apply_ops (forget f) (cli_ops [] [Remove STabulation (KOpt 5); Remove STabulation (KOpt 5)] []) = CfgErr.
 Proof. repeat split; vm_compute; reflexivity. Qed.
